@@ -42,6 +42,15 @@ pub struct Knobs {
     /// of stack kills the process
     #[serde(default, skip_serializing_if = "is_zero_usize")]
     pub stack_kib: usize,
+    /// worker threads of the simulated runtime (0 = 1): every poll of a spawned task runs on a
+    /// seeded one of them, the main task on the main thread; `thread_local!` state of the code
+    /// under test is per simulated thread
+    #[serde(default, skip_serializing_if = "is_zero_usize")]
+    pub workers: usize,
+}
+
+fn is_zero_u8(b: &u8) -> bool {
+    *b == 0
 }
 
 fn is_zero_usize(b: &usize) -> bool {
@@ -59,6 +68,7 @@ impl Knobs {
             short_write_permille: 0,
             rx_chunk: 0,
             stack_kib: 0,
+            workers: 0,
         }
     }
 }
@@ -162,6 +172,11 @@ pub enum ClientOp {
     Initialize {
         id: i32,
         diag: bool,
+        /// `general.positionEncodings` offered (LSP 3.17): 0 = member absent, 1 = `["utf-16"]`,
+        /// 2 = `["utf-8","utf-16"]`, 3 = `["utf-16","utf-8"]`. The client then speaks what the
+        /// server picks (`capabilities.positionEncoding`, UTF-16 when absent).
+        #[serde(default, skip_serializing_if = "is_zero_u8")]
+        enc: u8,
     },
     Initialized,
     Open {
@@ -218,7 +233,7 @@ impl ClientOp {
 
     pub fn short(&self) -> String {
         match self {
-            ClientOp::Initialize { id, diag } => format!("initialize#{id}{}", if *diag { "+diag" } else { "" }),
+            ClientOp::Initialize { id, diag, enc } => format!("initialize#{id}{}{}", if *diag { "+diag" } else { "" }, if *enc > 0 { format!("+enc{enc}") } else { String::new() }),
             ClientOp::Initialized => "initialized".into(),
             ClientOp::Open { uri, text } => format!("open({uri},{}B)", text.len()),
             ClientOp::Change { uri, edits } => format!("change({uri},{} edits)", edits.len()),
